@@ -88,6 +88,64 @@ def adversarial_inputs(ents, rng):
     return out
 
 
+def systematic_inputs(ents, rng, auto, nperms):
+    """deterministic coverage of key / tag spellings and of map-key faults: every derived root type with every field (variant)
+    written in each plausible spelling (identifier, camelCase, lowercase, rename, upper case), each field deleted or nulled once,
+    and for map targets with fallible keys every combination of good / bad key and good / bad value in every order"""
+    out = []
+    pg = coregen.PayloadGen(rng)
+    forms = [lambda f: coregen.G.unraw(f["ident"]), lambda f: coregen.camel(coregen.G.unraw(f["ident"])), lambda f: coregen.G.unraw(f["ident"]).lower(),
+             lambda f: f["rename"] if f["rename"] is not None else coregen.G.unraw(f["ident"]), lambda f: coregen.G.unraw(f["ident"]).upper()]
+
+    def vforms(v):
+        i = coregen.G.unraw(v["ident"])
+        return [i, coregen.camel(i), i.lower(), v["rename"] if v["rename"] is not None else i, i.upper()]
+
+    def fval(f):
+        return pg.gen(f["from"]["ty"] if f.get("from") else f["ty"], 0.0)
+
+    def add(eid, val):
+        perms = [coregen.permute(val, rng) for _ in range(nperms)] if nperms and coregen.count_maps(val) else []
+        out.append({"ty": eid, "val": val, "src": "ov", "grp": "start", "perm": False, "auto": auto, "perms": perms})
+
+    for eid, ty in ents:
+        if ty[0] == "ref":
+            d = pg.defs[ty[1]]
+            if d["kind"] == "struct" and not d.get("cfrom"):
+                fs = d["fields"]
+                for fm in forms:
+                    add(eid, coregen.vmap(coregen.dedup([(fm(f), fval(f)) for f in fs])))
+                for fm in forms[:4]:
+                    for k in range(len(fs)):
+                        add(eid, coregen.vmap(coregen.dedup([(fm(f), fval(f)) for j, f in enumerate(fs) if j != k])))
+                        add(eid, coregen.vmap(coregen.dedup([(fm(f), coregen.vnull() if j == k else fval(f)) for j, f in enumerate(fs)])))
+            elif d["kind"] == "enum" and d["tag"]:
+                for v in d["variants"]:
+                    for tn in vforms(v):
+                        for fm in forms[:4]:
+                            ms = [(d["tag"], coregen.vstr(tn))] + [(fm(f), fval(f)) for f in (v["fields"] or [])]
+                            add(eid, coregen.vmap(coregen.dedup(ms)))
+                            if not v["fields"]:
+                                break
+            elif d["kind"] == "enum":
+                for v in d["variants"]:
+                    for tn in vforms(v):
+                        add(eid, coregen.vstr(tn))
+        if ty[0] in ("hmap", "bmap") and coregen.BADKEYS[ty[1]]:
+            good, bad = coregen.KEYPOOL[ty[1]], coregen.BADKEYS[ty[1]]
+            gv = lambda: pg.gen(ty[2], 0.0)
+            bv = lambda: pg.wrong({"int", "neg", "seq", "bool"} if ty[2][0] == "scalar" and ty[2][1] in ("u8", "bool") else {"seq"})
+            combos = [[(good[0], gv()), (bad[0], gv())], [(bad[0], gv()), (good[0], bv())], [(good[0], bv()), (bad[0], gv()), (good[1], gv())],
+                      [(bad[0], gv()), (bad[-1] if bad[-1] != bad[0] else bad[0] + "q", gv())], [(good[0], bv()), (good[1], bv())],
+                      [(bad[0], bv()), (good[0], gv())]]
+            for ms in combos:
+                val = coregen.vmap(coregen.dedup(ms))
+                import itertools
+                perms = [dict(val, e=list(pm)) for pm in itertools.permutations(val["e"])][1:] if nperms else []
+                out.append({"ty": eid, "val": val, "src": "ov", "grp": "start", "perm": False, "auto": auto, "perms": perms})
+    return out
+
+
 def gen_inputs(pid, tier, seed):
     rng = random.Random(seed * 7919 + sum(ord(c) for c in pid))
     ents, table = coregen.entries()
@@ -106,6 +164,8 @@ def gen_inputs(pid, tier, seed):
                 perms += [coregen.permute(val, rng) for _ in range(prof["perms"])]
             recs.append({"ty": eid, "val": val, "src": "json" if (i % 2 == 0 or prof.get("json_only")) else "ov", "grp": "start", "perm": False,
                          "auto": prof["auto"], "perms": perms})
+    recs += systematic_inputs(ents, rng, dict(prof["auto"], all_upto=min(prof["auto"]["all_upto"], 3), random=min(prof["auto"]["random"], 1)),
+                              1 if prof["perms"] else 0)
     if pid == "C15":
         recs += collide_inputs(ents, rng)
     if pid == "C12":
@@ -275,6 +335,8 @@ def run(pid, tier, prop=None):
     # --- impl -> spec
     tot_all = None
     known_hits = []
+    # open findings come from the committed known_findings.json only
+    open_f5 = any(f["property"] == "C15" and f["status"] == "open" and f["id"] == "F5" for f in vlib.load_known_findings())
     samples = []
     nontrivial = set()
     for tp in traces:
@@ -296,7 +358,7 @@ def run(pid, tier, prop=None):
         for b in bad:
             if prop not in b["item"]["props"]:
                 continue
-            if prop == "C15" and is_known_collision(b["run"]):
+            if prop == "C15" and open_f5 and is_known_collision(b["run"]):
                 d = "F5: a map target fed with two members whose distinct keys parse to the same key keeps the last one (order-dependent)"
                 if d not in known_hits:
                     known_hits.append(d)
